@@ -367,6 +367,7 @@ Section T.
       { (* the XML declaration in its other spelling, or the reserved target: the state stays, or an error *)
         match goal with |- Rs _ (match ?x with Some _ => _ | None => _ end) => destruct x as [v|] end; [|exact I].
         destruct (str_eqb _ _); [|exact I]. cbn. split; assumption. }
+      match goal with |- Rs _ (if ?c then _ else _) => destruct c end; [exact I|].
       eapply Rs_bind; [apply Rs_of_res|]. intros [tid t1] _.
       assert (BInv (with_tabs st t1)) as G1 by (eapply BInv_same; [| |exact G]; reflexivity).
       match goal with |- Rs _ (bbind (add_node ?s ?v) _) =>
@@ -388,7 +389,7 @@ Section T.
       { intros r Hr. eapply Rs_weaken; [exact Hr|]. intros st1 (H1 & H2 & H3). split; [eapply BInv_same; eauto|exact H3]. }
       destruct (str_eqb (ss_text prefix) s_xmlns).
       + eapply Rs_bind; [unfold parse_attr_value; apply Rs_of_entity|]. intros uri _. apply K. apply builder_prefix_spec. exact Hi.
-      + destruct (str_eqb (ss_text local) s_xmlns).
+      + destruct (str_eqb (ss_text prefix) [] && str_eqb (ss_text local) s_xmlns).
         * eapply Rs_bind; [unfold parse_attr_value; apply Rs_of_entity|]. intros uri _. apply K. apply builder_prefix_spec. exact Hi.
         * apply K. apply builder_attribute_spec. exact Hi.
     - (* EndOpen *) destruct intag; [|discriminate].
@@ -459,7 +460,8 @@ Section T.
   Lemma parse_document_at_total bom t next srclen ts : stream_shape false ts = true ->
     Rs (fun _ => True) (parse_document_at bi bom t next srclen ts).
   Proof.
-    intros Hs. unfold parse_document_at. eapply Rs_bind; [apply (brun_total ts false _ (J_new_at _ t next) Hs)|]. intros st G.
+    intros Hs. unfold parse_document_at. eapply Rs_bind; [apply (brun_total ts false _ (J_new_at _ t next) Hs)|]. intros st0 G0.
+    unfold bfinish. destruct (b_eb st0); [exact I|]. cbn [bbind]. revert G0. generalize st0. intros st G.
     destruct (b_stack st) as [|doc rest] eqn:E.
     - apply unclosed_spec; [exact G|]. rewrite E. discriminate.
     - destruct rest as [|x rest].
@@ -478,7 +480,8 @@ Section T.
   Lemma parse_fragment_total t next ts : stream_shape false ts = true ->
     Rs (fun _ => True) (parse_fragment bi t next ts).
   Proof.
-    intros Hs. unfold parse_fragment. eapply Rs_bind; [apply (brun_total ts false _ (J_new t next) Hs)|]. intros st G.
+    intros Hs. unfold parse_fragment. eapply Rs_bind; [apply (brun_total ts false _ (J_new t next) Hs)|]. intros st0 G0.
+    unfold bfinish. destruct (b_eb st0); [exact I|]. cbn [bbind]. revert G0. generalize st0. intros st G.
     destruct (b_stack st) as [|doc rest] eqn:E.
     - apply unclosed_spec; [exact G|]. rewrite E. discriminate.
     - destruct rest as [|x rest]; [exact I|]. apply unclosed_spec; [exact G|]. rewrite E. discriminate.
